@@ -61,6 +61,13 @@ def focus_opts(focus: str, ch: Choices, known: dict, params: dict) -> dict:
         o["flavour_weights"] = [1, 0, 0]
     if params.get("allow_known"):
         o["gcc_zero_cap"] = True
+    if focus == "C07" and not params.get("types") and ch.chance(2, 3, "c07.bias"):
+        # the constraint types that can answer 'entailed', with room for long constraints
+        o["types"] = sorted(R.CAN_ENTAIL) + ["alldifferent", "affine_eq"]
+        o["flavour_weights"] = [6, 1, 0]
+        o["max_vars"] = 8
+        o["max_extra"] = 5
+        o["max_arity"] = 6
     if focus == "C16":
         o["max_arity"] = 6
         o["max_vars"] = 8
